@@ -26,7 +26,8 @@ impl AccessPolicy {
     /// given as a string.
     fn find_matching_closing_parenthesis(boolean_expression: &str) -> Result<usize, Error> {
         let mut count = 0;
-        for (index, c) in boolean_expression.chars().enumerate() {
+        // Use byte offsets since the result is used to slice the expression.
+        for (index, c) in boolean_expression.char_indices() {
             match c {
                 '(' => count += 1,
                 ')' => count -= 1,
@@ -105,8 +106,10 @@ impl AccessPolicy {
             } else if e == "*" {
                 return Ok(Self::conjugate(Self::Broadcast, q.into_iter()));
             } else {
-                match &e[..1] {
-                    "(" => {
+                // Match on the first character rather than on the first byte:
+                // the expression may contain multi-byte characters.
+                match e.chars().next() {
+                    Some('(') => {
                         let offset = Self::find_matching_closing_parenthesis(&e[1..])?;
                         q.push_back(Self::parse(&e[1..1 + offset]).map_err(|err| {
                             Error::InvalidBooleanExpression(format!(
@@ -115,8 +118,8 @@ impl AccessPolicy {
                         })?);
                         e = &e[2 + offset..];
                     }
-                    "|" => {
-                        if e[1..].is_empty() || &e[1..2] != "|" {
+                    Some('|') => {
+                        if !e[1..].starts_with('|') {
                             return Err(Error::InvalidBooleanExpression(format!(
                                 "invalid separator in: '{e}'"
                             )));
@@ -127,8 +130,8 @@ impl AccessPolicy {
                         let lhs = Self::conjugate(base, q.into_iter());
                         return Ok(lhs | Self::parse(&e[2..])?);
                     }
-                    "&" => {
-                        if e[1..].is_empty() || &e[1..2] != "&" {
+                    Some('&') => {
+                        if !e[1..].starts_with('&') {
                             return Err(Error::InvalidBooleanExpression(format!(
                                 "invalid leading separator in: '{e}'"
                             )));
@@ -140,7 +143,7 @@ impl AccessPolicy {
                         }
                         e = &e[2..];
                     }
-                    ")" => {
+                    Some(')') => {
                         return Err(Error::InvalidBooleanExpression(format!(
                             "unmatched closing parenthesis in '{e}'"
                         )));
